@@ -563,7 +563,9 @@ def r12_1(rep):
                     % (f, f_str(need), where.get(f, "?"), f_str(g), cex, via), body.loc(node))
             return
         for cb, c in sites:
-            check_site(f, need, cb, c, T, depth - 1, via + " via " + short(body))
+            # option flags do not change during code generation: what the callee already knows stays known
+            keep = f_and([x for x in (g[1] if g[0] == "and" else [g]) if not any(a[0] == "opaque" for a in f_atoms(x))])
+            check_site(f, need, cb, c, keep, depth - 1, via + " via " + short(body))
 
     for f, b, n in unwraps:
         need = cond.get(f, F)
